@@ -16,7 +16,7 @@ static wexp_cfg CF, CF2, CF3;
 static int ALPHA[WO_FIRST_NOENC];
 static const int ALPHA_BIG[] = { WO_OBJ_BEGIN, WO_NAME_A, WO_INT_1, WO_STR_128, WO_STR_40000, WO_BYT_32768, WO_OBJ_END };
 static wexp_cfg CF4;
-static const int ALPHA_SMALL[] = { WO_OBJ_BEGIN, WO_OBJ_END, WO_ARR_BEGIN, WO_TRUE, WO_INT_1, WO_INT_128, WO_INT_2P31, WO_DOUBLE, WO_STR_0, WO_STR_1, WO_STR_128, WO_STRZ_AB, WO_BYT_1, WO_RAW_0, WO_RAW_2, WO_P2W };
+static const int ALPHA_SMALL[] = { WO_OBJ_BEGIN, WO_OBJ_END, WO_ARR_BEGIN, WO_TRUE, WO_INT_1, WO_INT_128, WO_INT_2P31, WO_DOUBLE, WO_STR_0, WO_STR_1, WO_STR_128, WO_STRZ_AB, WO_BYT_1, WO_RAW_0, WO_RAW_2, WO_P2W, WO_P2W_REFUSED };
 static void worker(int w, int W, uint64_t start)
 {
     vf_fatal_describe = wexp_describe;
@@ -46,7 +46,7 @@ int main(int argc, char **argv)
     memset(&CF2, 0, sizeof CF2); memset(&CF3, 0, sizeof CF3);
     CF4 = CF; CF4.K = vf_g.thorough ? 4 : 3; CF4.alpha = ALPHA_BIG; CF4.nalpha = 7; CF4.with_noenc = false;
     if (vf_g.thorough) {
-        CF2 = CF; CF2.K = CF.K + 1; CF2.alpha = ALPHA_SMALL; CF2.nalpha = 16; CF2.with_noenc = false;
+        CF2 = CF; CF2.K = CF.K + 1; CF2.alpha = ALPHA_SMALL; CF2.nalpha = 17; CF2.with_noenc = false;
         CF3 = CF; CF3.K = 3; CF3.with_noenc = true;
     }
     if (vf_g.replay) { char *t = vf_replay_load(vf_g.replay); return wexp_replay(&CF, t); }
@@ -54,14 +54,14 @@ int main(int argc, char **argv)
     static char bound[2400];
     snprintf(bound, sizeof bound,
              "every sequence of <= %d operations over %d write operations (begin/end object/array, booleans, integers at every width boundary, double, "
-             "string_with_len 0/1/127/128/300, write_string, write_name, bytes 0/1/128, write_raw 0/2, parser_to_writer, write_raw from a source inside the writer's own buffer overlapping the destination from below / from above)%s x EVERY capacity from 0 to encoded size + 1; "
+             "string_with_len 0/1/127/128/300, write_string, write_name, bytes 0/1/128, write_raw 0/2, parser_to_writer, write_raw from a source inside the writer's own buffer overlapping the destination from below / from above, parser_to_writer with the parser on a scalar)%s x EVERY capacity from 0 to encoded size + 1; "
              "destination = heap block of exactly 'capacity' bytes pre-filled with 0xA5, under ASan",
              CF.K, CF.nalpha, (CF.with_noenc || CF3.K) ? ", plus each of 6 calls that have no encoding (length > INT32_MAX, SIZE_MAX, NULL sources, raw lengths that wrap the counter) inserted at every position of every sequence of <= 3 operations" : "");
     snprintf(bound + strlen(bound), sizeof bound - strlen(bound), "; every sequence of <= %d operations over 7 operations incl. string_with_len(40000) and bytes(32768) x every capacity within 3 of a piece boundary", CF4.K);
     snprintf(bound + strlen(bound), sizeof bound - strlen(bound), "; single parametric operations (alone and between two one-byte tokens) x every capacity: integer +-2^k+d (k<64, |d|<=2) and 1020 sparse byte patterns (each byte 0x00 or a fill), 10 double bit "
              "patterns and the same sparse patterns, string_with_len / bytes / write_string / write_raw of every length 0..%d, and of 2047, 2048, 4608, 4863, 32767..32769, 49152, 65535..65537, 65792, 65794, 70000, 98304, 131071..131073, 196608 bytes at every "
              "capacity within 3 of a piece boundary", vf_g.thorough ? 2100 : 400);
-    if (CF2.K) snprintf(bound + strlen(bound), sizeof bound - strlen(bound), "; additionally every sequence of <= %d operations over a 16-operation sub-alphabet x every capacity", CF2.K);
+    if (CF2.K) snprintf(bound + strlen(bound), sizeof bound - strlen(bound), "; additionally every sequence of <= %d operations over a 17-operation sub-alphabet x every capacity", CF2.K);
     static const char *const assumptions[] = {
         "pieces are the units the writer stores atomically: a one-byte token, an integer/double token, a length descriptor, a payload",
         "operations without an encoding (length > INT32_MAX, NULL source) are only required to set an error and store nothing; no size is demanded after them",
